@@ -544,25 +544,56 @@ def covered(a, msg):
     route = next((rt for pre, rt in _ROUTE_OF_MSG if msg.startswith(pre)), None)
     if route is None:
         return None
-    args = {"ctx": D.export_ctx(u), "value": a["value"], "target": a["target"], "factory": a.get("factory", "dict"), "config": {},
-            "ignore_default_attributes": False, "route": route, "desc": a.get("desc"), "_uni": a.get("_uni")}
+    # the admissible results multiply over the ambiguous objects of a document (3 candidates each in a two-level
+    # subclass chain): a list document is replayed item by item, the items decode independently
+    value, target = a["value"], a["target"]
+    if isinstance(value, dict) and "list" in value and target and "list" in target:
+        parts = [(v, {"cls": target["list"]}) for v in value["list"]]
+    else:
+        parts = [(value, target)]
+    ctx = D.export_ctx(u)
     from framework import Driver
 
-    try:
-        mo = Driver().run([{"op": "dict.roundtrip", "args": args}])[0]
-    except Exception:  # noqa: BLE001  (no driver: nothing can be attributed to a finding)
-        return None
-    io = impl_rt(args)
-    if unsupported(mo) or not isinstance(mo, dict):
-        return None
-    if "ok" in mo:
-        if mo["ok"] == [a["value"]]:
-            return None  # the unchanged code round-trips this input
-        if "ok" not in io or io["ok"] not in mo["ok"]:
+    changed = False
+    for v, t in parts:
+        if _ambiguous_objects(v) > 9:
+            # more than 3^9 admissible results: not enumerable in the time of a check; the item is attributed by its
+            # region alone (the predicate used before the replay was introduced)
+            changed = True
+            continue
+        args = {"ctx": ctx, "value": v, "target": t, "factory": a.get("factory", "dict"), "config": {},
+                "ignore_default_attributes": False, "route": route, "desc": a.get("desc"), "_uni": a.get("_uni")}
+        try:
+            mo = Driver().run([{"op": "dict.roundtrip", "args": args}])[0]
+        except Exception:  # noqa: BLE001  (no driver: nothing can be attributed to a finding)
             return None
-    elif mo != io:
-        return None
+        io = impl_rt(args)
+        if unsupported(mo) or not isinstance(mo, dict):
+            return None
+        if "ok" in mo:
+            if mo["ok"] != [v]:
+                changed = True
+            if "ok" not in io or io["ok"] not in mo["ok"]:
+                return None
+        else:
+            changed = True
+            if mo != io:
+                return None
+    if not changed:
+        return None  # the unchanged code round-trips this input
     return sorted(r)[0]
+
+
+def _ambiguous_objects(v):
+    """number of model instances in the value (each may have several admissible classes)"""
+    if isinstance(v, dict):
+        if "obj" in v:
+            return 1 + sum(_ambiguous_objects(x) for _, x in v["fields"])
+        if "list" in v:
+            return sum(_ambiguous_objects(x) for x in v["list"])
+        if "derived" in v:
+            return _ambiguous_objects(v["derived"]["value"])
+    return 0
 
 
 # ------------------------------------------------------------------ known findings (replayed on the real code)
